@@ -310,8 +310,15 @@ def prepare(sc, session=None):
         b.excluded_inputs.append(fresh(i))
     for a in sc.get('input_addresses', []):
         b.add_input_address(Address.from_primitive(bytes.fromhex(a)))
+    seen_coll = set()
     for i in sc.get('collaterals', []):
-        b.collaterals.append(fresh(i))
+        u = fresh(i)
+        if i in seen_coll and session is None and u.output.datum is None and u.output.script is None:
+            # the second registration of the same UTxO comes from another source in the OTHER wire form (equal objects)
+            u = copy.deepcopy(u)
+            u.output.post_alonzo = not u.output.post_alonzo
+        seen_coll.add(i)
+        b.collaterals.append(u)
     for o in sc.get('outputs', []):
         b.add_output(TransactionOutput(Address.from_primitive(bytes.fromhex(o['addr'])),
                                        Value(o['coin'], mk_ma(o.get('assets', [])))))
